@@ -148,7 +148,7 @@ package backend
 //@ pure swSumP(sw *SlidingWindow) bool = sw.allErrorCount == sum(i, 0, W, bcnt(sw, i))
 //@ pure swSumT(sw *SlidingWindow) bool = sw.allErrorCount == sum(j, 0, W, viewAt(sw, sw.startSec + j))
 //@ pure swWF(sw *SlidingWindow) bool = sw.enabled ==> swShape(sw) && swSumP(sw) && swSumT(sw) && sw.startSec <= swLastNow && conj(j, 0, W, sw.startSec + j > swLastNow ==> viewAt(sw, sw.startSec + j) == 0)
-//@ property C26: NewSlidingWindow, (*SlidingWindow).slide, (*SlidingWindow).Trigger
+//@ property C26: NewSlidingWindow, (*SlidingWindow).slide, (*SlidingWindow).Trigger, (*Slice).TryFuse
 
 // a window is enabled exactly for positive size and threshold, and starts empty
 //@ func NewSlidingWindow
@@ -179,11 +179,15 @@ package backend
 
 // Trigger(now) records one error at second now and fires iff the errors recorded in (now-W, now] reach the threshold;
 // a disabled window never fires and does not change.
+//@ iface FuseStrategy.Trigger
+//@   params recv, now
+//@   assigns fieldsof(SlidingWindow), fieldsof(SlideBucket), elemsoftype(*SlideBucket), swLastNow
 //@ func (*SlidingWindow).Trigger
 //@   instantiate W in 1..8
+//@   assigns fieldsof(SlidingWindow), fieldsof(SlideBucket), elemsoftype(*SlideBucket), swLastNow
 //@   requires sw != nil && swWF(sw)
 //@   requires swLastNow <= now && 0 <= now && now < 1<<62 && sw.allErrorCount < 1<<62 && (sw.enabled ==> forall(i, 0, W, bcnt(sw, i) < 1<<62))
-//@   ghost-update at entry when sw.enabled: swLastNow = now
+//@   ghost-update at entry: swLastNow = now
 //@   hint case inWindow: old(sw.enabled) ==> sw.startSec <= now && now < sw.startSec + W
 //@   hint case slot:     old(sw.enabled) ==> now % W == wrapIdx(now - sw.startSec + sw.startSec % W)
 //@   ensures case disabled: !old(sw.enabled) ==> !ret0 && !sw.enabled
@@ -199,3 +203,243 @@ package backend
 //@   ensures case recordStay: sw.enabled && old(sw.startSec) >= now - W + 1 ==> conj(d, 0, W, sw.startSec == now - W + 1 + d ==> conj(j, 0, W, viewAt(sw, now - W + 1 + j) == old(viewAt(sw, now - W + 1 + j)) + ite(j == W - 1, 1, 0)))
 //@   ensures case fires:    sw.enabled ==> conj(d, 0, W, sw.startSec == now - W + 1 + d ==> (ret0 <==> sum(j, 0, W, viewAt(sw, now - W + 1 + j)) >= sw.fuseMinErrorCount))
 //@   ensures case config:   sw.enabled ==> sw.fuseMinErrorCount == old(sw.fuseMinErrorCount)
+
+// ---------------------------------------------------------------- C27 / C28 node status, recovery strategies, health checks
+// wall clock: time.Now is trusted to be monotone; `clock` is the latest second read
+//@ ghost clock int64
+//@ pure unixOf(t time.Time) int64
+//@ trusted time.Now
+//@   assigns clock
+//@   ensures clock >= old(clock) && unixOf(ret0) == clock && 0 <= clock && clock <= 1<<40
+//@ trusted (time.Time).Unix
+//@   params t
+//@   pure-call
+//@   ensures ret0 == unixOf(t)
+
+// "no other event changes a node's status": outside the two setters (and the construction of the node list) no function of
+// the backend and server packages stores to a NodeInfo field or lets its address escape (type-level frame, one obligation per store site)
+//@ immutable C28: NodeInfo after (*NodeInfo).SetStatusUp, (*NodeInfo).SetStatusDown, (*DBInfo).InitFuseRecoveryPolicy in backend, proxy/server
+//@ func (*NodeInfo).SetStatusUp
+//@   requires n != nil
+//@   assigns n.Status
+//@   ensures n.Status == StatusUp && (ret0 <==> old(n.Status) != StatusUp)
+//@ func (*NodeInfo).SetStatusDown
+//@   requires n != nil
+//@   assigns n.Status
+//@   ensures n.Status == StatusDown && (ret0 <==> old(n.Status) != StatusDown)
+//@ func (*NodeInfo).IsStatusDown
+//@   requires n != nil
+//@   assigns \nothing
+//@   ensures ret0 <==> n.Status == StatusDown
+//@ func (*NodeInfo).GetStatus
+//@   requires n != nil
+//@   assigns \nothing
+//@   ensures ret0 == n.Status
+
+// ---- hard cool-down: recovery is allowed exactly from lastFuseTime + coolingPeriod on (clock = the second read by this call)
+//@ func (*HardCoolDownStrategy).AllowRecovery
+//@   requires s != nil && -(1<<40) <= s.coolingPeriod && s.coolingPeriod <= 1<<40 && -(1<<40) <= s.lastFuseTime.int64 && s.lastFuseTime.int64 <= 1<<40
+//@   assigns clock
+//@   ensures clock >= old(clock) && (ret0 <==> clock >= s.lastFuseTime.int64 + s.coolingPeriod)
+//@ func (*HardCoolDownStrategy).UpdateFuseTime
+//@   requires s != nil
+//@   assigns s.lastFuseTime.int64
+//@   ensures s.lastFuseTime.int64 == now
+
+// ---- gradual recovery: a recovery is allowed only when the skip counter is 0; every refused attempt consumes one skip
+//@ pure penalty(n int64) int64 = ite((1 + n) * n / 2 < 120, (1 + n) * n / 2, 120)
+//@ func (*GradualRecoveryStrategy).AllowRecovery
+//@   requires g != nil && g.consecutiveSuccessCheckCount.int64 <= 1<<40
+//@   assigns g.consecutiveSuccessCheckCount.int64
+//@   ensures ret0 <==> old(g.consecutiveSuccessCheckCount.int64) <= 0
+//@   ensures ret0 ==> g.consecutiveSuccessCheckCount.int64 == old(g.consecutiveSuccessCheckCount.int64)
+//@   ensures !ret0 ==> g.consecutiveSuccessCheckCount.int64 == old(g.consecutiveSuccessCheckCount.int64) - 1
+//@ func (*GradualRecoveryStrategy).UpdateCoolDownCount
+//@   requires s != nil && 0 <= s.errorRecoveryCount.int64 && s.errorRecoveryCount.int64 <= 1<<20
+//@   assigns s.errorRecoveryCount.int64, s.consecutiveSuccessCheckCount.int64
+//@   ensures s.errorRecoveryCount.int64 == old(s.errorRecoveryCount.int64) + 1
+//@   ensures s.consecutiveSuccessCheckCount.int64 == penalty(s.errorRecoveryCount.int64)
+//@ func (*GradualRecoveryStrategy).RefreshCoolDownCount
+//@   requires s != nil && 0 <= s.errorRecoveryCount.int64 && s.errorRecoveryCount.int64 <= 1<<20
+//@   assigns s.consecutiveSuccessCheckCount.int64
+//@   ensures s.consecutiveSuccessCheckCount.int64 == penalty(s.errorRecoveryCount.int64)
+//@ func (*GradualRecoveryStrategy).ResetBadRecovery
+//@   requires s != nil
+//@   assigns s.errorRecoveryCount.int64
+//@   ensures s.errorRecoveryCount.int64 == initErrorRecoveryCount
+//@ func (*GradualRecoveryStrategy).IsBadRecovery
+//@   requires g != nil && -(1<<40) <= fuseTime && fuseTime <= 1<<40 && -(1<<40) <= g.lastRecoveryTime.int64 && g.lastRecoveryTime.int64 <= 1<<40
+//@   assigns \nothing
+//@   ensures ret0 <==> fuseTime - g.lastRecoveryTime.int64 <= PingPeriod * 2
+//@ func (*GradualRecoveryStrategy).UpdateFuseTime
+//@   requires s != nil
+//@   assigns s.lastFuseTime.int64
+//@   ensures s.lastFuseTime.int64 == fuseTime
+//@ func (*GradualRecoveryStrategy).UpdateLastRecoveryTime
+//@   requires g != nil
+//@   assigns g.lastRecoveryTime.int64, clock
+//@   ensures clock >= old(clock) && g.lastRecoveryTime.int64 == clock
+// the penalty grows with the number of bad recoveries (until the cap)
+//@ lemma penaltyMonotone: forall(a int64, forall(b int64, 0 <= a && a <= b && b <= 1<<20 ==> penalty(a) <= penalty(b)))
+//@ func min
+//@   assigns \nothing
+//@   ensures ret0 == ite(a < b, a, b)
+
+// ---- one probe round. Abstract state of the probed node's pool: lastChecked = second of its last passed health probe.
+//@ ghost lastChecked int64
+//@ iface ConnectionPool.GetLastChecked
+//@   params recv
+//@   pure-call
+//@   ensures ret0 == lastChecked
+// the probe itself (network I/O, retries, recover) is not under contract: it either yields a connection and stamps lastChecked
+// with the current second, or yields none and leaves the stamp alone (assumed; listed in the evidence)
+//@ func checkInstanceStatus
+//@   assigns lastChecked, clock
+//@   ensures clock >= old(clock) && (ret1 != nil ==> ret0 == nil)
+//@   ensures ret0 != nil ==> old(clock) <= lastChecked && lastChecked <= clock && 0 <= lastChecked && lastChecked <= 1<<40
+//@   ensures ret0 == nil ==> lastChecked == old(lastChecked)
+//@ func (*NodeInfo).GetPooledConnectWithHealthCheck
+//@   requires n != nil
+//@   assigns lastChecked, clock
+//@   ensures clock >= old(clock) && ((ret0 != nil) <==> (ret1 == nil))
+//@   ensures ret0 != nil ==> old(clock) <= lastChecked && lastChecked <= clock && 0 <= lastChecked && lastChecked <= 1<<40
+//@   ensures ret0 == nil ==> lastChecked == old(lastChecked)
+//@ func (*StatusCode).String
+//@   requires s != nil
+//@   assigns \nothing
+// a node is due for StatusDown exactly when it has not passed a probe for the configured period
+//@ func (*NodeInfo).ShouldDownAfterNoAlive
+//@   requires n != nil && -(1<<40) <= lastChecked && lastChecked <= 1<<40
+//@   assigns clock
+//@   ensures clock >= old(clock) && ret1 == clock - lastChecked && (ret0 <==> ret1 >= downAfterNoAlive)
+//@ pure masterUp(s *Slice) bool = len(s.Master.Nodes) > 0 && s.Master.Nodes[0].Status != StatusDown
+//@ func (*Slice).GetMasterStatus
+//@   requires s != nil && s.Master != nil && (len(s.Master.Nodes) > 0 ==> s.Master.Nodes[0] != nil)
+//@   assigns \nothing
+//@   ensures (ret1 != nil || ret0 == StatusDown) <==> !masterUp(s)
+
+// replication check: observations of the one SHOW SLAVE STATUS this call may issue
+//@ ghost ssProbed bool
+//@ ghost ssSkip bool
+//@ ghost ssFail bool
+//@ ghost ssLag uint64
+//@ ghost ssIO string
+//@ ghost ssSQL string
+//@ func GetSlaveStatus
+//@   assigns \nothing
+//@ func checkSlaveSyncStatus$1
+//@   assigns \nothing
+// alive unless the replica is probed and lags more than the limit, has a stopped replication thread, or cannot be asked
+//@ func checkSlaveSyncStatus
+//@   assigns ssProbed, ssSkip, ssFail, ssLag, ssIO, ssSQL
+//@   ghost-update at entry: ssProbed = false
+//@   ghost-update after call GetSlaveStatus#0: ssProbed = true, ssSkip = ret0, ssFail = ret2 != nil, ssLag = ret1.SecondsBehindMaster, ssIO = ret1.SlaveIORunning, ssSQL = ret1.SlaveSQLRunning
+//@   ensures case off:    secondsBehindMaster == 0 ==> ret0 && !ssProbed
+//@   ensures case noconn: secondsBehindMaster != 0 && pc == nil ==> ret0 && !ssProbed
+//@   ensures case probed: secondsBehindMaster != 0 && pc != nil ==> ssProbed && (ret0 <==> (!ssFail && (ssSkip || (ssLag <= uint64(secondsBehindMaster) && ssIO == "Yes" && ssSQL == "Yes"))))
+
+// observations of one probe round (set where the round consults them; defaults at entry)
+//@ ghost rdConn bool
+//@ ghost rdShould bool
+//@ ghost rdMasterDown bool
+//@ ghost rdAlive bool
+//@ ghost rdAllowed bool
+//@ ghost rdAsked bool
+
+// a replica without fuse policy: down after the no-alive period or on replication trouble, up again after a passed probe
+//@ func (*Slice).checkWithNoRecovery
+//@   requires s != nil && node != nil && s.Master != nil && (len(s.Master.Nodes) > 0 ==> s.Master.Nodes[0] != nil) && -(1<<40) <= lastChecked && lastChecked <= 1<<40
+//@   ghost-update at entry: rdConn = false, rdShould = false, rdMasterDown = false, rdAlive = true
+//@   ghost-update after call GetPooledConnectWithHealthCheck#0: rdConn = ret0 != nil
+//@   ghost-update after call ShouldDownAfterNoAlive#0: rdShould = ret0
+//@   ghost-update after call GetMasterStatus#0: rdMasterDown = (ret1 != nil || ret0 == StatusDown)
+//@   ghost-update after call checkSlaveSyncStatus#0: rdAlive = ret0
+//@   assert at call ShouldDownAfterNoAlive#0: arg1 == downAfterNoAlive
+//@   assert at call checkSlaveSyncStatus#0: arg1 == secondBehindMaster
+//@   ensures case noAlive:    rdShould ==> node.Status == StatusDown
+//@   ensures case replication: !rdShould && !rdMasterDown && !rdAlive ==> node.Status == StatusDown
+//@   ensures case probePassed: !rdShould && !rdMasterDown && rdAlive && rdConn ==> node.Status == ite(old(node.Status) == StatusDown, StatusUp, old(node.Status))
+//@   ensures case probeFailed: !rdShould && !rdMasterDown && rdAlive && !rdConn ==> node.Status == old(node.Status)
+//@   ensures case masterDownPassed: !rdShould && rdMasterDown && rdConn ==> node.Status == ite(old(node.Status) == StatusDown, StatusUp, old(node.Status))
+//@   ensures case masterDownFailed: !rdShould && rdMasterDown && !rdConn ==> node.Status == old(node.Status)
+
+// hard cool-down: as above, and a down replica is marked up only when AllowRecovery answered yes in this round
+//@ func (*Slice).checkWithHardRecovery
+//@   requires s != nil && node != nil && strategy != nil && s.Master != nil && (len(s.Master.Nodes) > 0 ==> s.Master.Nodes[0] != nil) && -(1<<40) <= lastChecked && lastChecked <= 1<<40
+//@   requires -(1<<40) <= strategy.coolingPeriod && strategy.coolingPeriod <= 1<<40 && -(1<<40) <= strategy.lastFuseTime.int64 && strategy.lastFuseTime.int64 <= 1<<40
+//@   ghost-update at entry: rdConn = false, rdShould = false, rdMasterDown = false, rdAlive = true, rdAllowed = false, rdAsked = false
+//@   ghost-update after call GetPooledConnectWithHealthCheck#0: rdConn = ret0 != nil
+//@   ghost-update after call ShouldDownAfterNoAlive#0: rdShould = ret0
+//@   ghost-update after call GetMasterStatus#0: rdMasterDown = (ret1 != nil || ret0 == StatusDown)
+//@   ghost-update after call checkSlaveSyncStatus#0: rdAlive = ret0
+//@   ghost-update after call AllowRecovery#0: rdAllowed = ret0, rdAsked = true
+//@   ghost-update after call AllowRecovery#1: rdAllowed = ret0, rdAsked = true
+//@   assert at call ShouldDownAfterNoAlive#0: arg1 == downAfterNoAlive
+//@   assert at call checkSlaveSyncStatus#0: arg1 == secondBehindMaster
+//@   ensures case noAlive:     rdShould ==> node.Status == StatusDown
+//@   ensures case replication: !rdShould && !rdMasterDown && !rdAlive ==> node.Status == StatusDown
+//@   ensures case cooldown:    old(node.Status) == StatusDown && node.Status != StatusDown ==> rdAsked && rdAllowed && clock >= strategy.lastFuseTime.int64 + strategy.coolingPeriod
+//@   ensures case restored:    !rdShould && !rdMasterDown && rdAlive && rdConn && old(node.Status) == StatusDown ==> rdAsked && (rdAllowed ==> node.Status == StatusUp)
+//@   ensures case stays:       old(node.Status) != StatusDown && !rdShould && (rdMasterDown || rdAlive) ==> node.Status == old(node.Status)
+//@   ensures case fuseTime:    strategy.lastFuseTime.int64 == old(strategy.lastFuseTime.int64) && strategy.coolingPeriod == old(strategy.coolingPeriod)
+//@   ensures case masterDownFailed: !rdShould && rdMasterDown && !rdConn ==> node.Status == old(node.Status)
+
+// gradual recovery: a down replica is marked up only when the skip counter had run out; every refused attempt consumes one skip,
+// a failed probe of a down replica re-arms the counter
+//@ func (*Slice).checkWithGradualRecovery
+//@   requires s != nil && node != nil && strategy != nil && s.Master != nil && (len(s.Master.Nodes) > 0 ==> s.Master.Nodes[0] != nil) && -(1<<40) <= lastChecked && lastChecked <= 1<<40
+//@   requires 0 <= strategy.errorRecoveryCount.int64 && strategy.errorRecoveryCount.int64 <= 1<<20 && strategy.consecutiveSuccessCheckCount.int64 <= 1<<40
+//@   ghost-update at entry: rdConn = false, rdShould = false, rdMasterDown = false, rdAlive = true, rdAllowed = false, rdAsked = false
+//@   ghost-update after call GetPooledConnectWithHealthCheck#0: rdConn = ret0 != nil
+//@   ghost-update after call ShouldDownAfterNoAlive#0: rdShould = ret0
+//@   ghost-update after call GetMasterStatus#0: rdMasterDown = (ret1 != nil || ret0 == StatusDown)
+//@   ghost-update after call checkSlaveSyncStatus#0: rdAlive = ret0
+//@   ghost-update after call AllowRecovery#0: rdAllowed = ret0, rdAsked = true
+//@   assert at call ShouldDownAfterNoAlive#0: arg1 == downAfterNoAlive
+//@   assert at call checkSlaveSyncStatus#0: arg1 == secondBehindMaster
+//@   ensures case noAlive:     rdShould ==> node.Status == StatusDown
+//@   ensures case replication: !rdShould && !rdMasterDown && !rdAlive ==> node.Status == StatusDown
+//@   ensures case penalty:     old(node.Status) == StatusDown && node.Status != StatusDown ==> rdAsked && rdAllowed && rdConn && ite(old(rdConn), true, true)
+//@   ensures case counted:     old(node.Status) == StatusDown && node.Status != StatusDown ==> old(strategy.consecutiveSuccessCheckCount.int64) <= 0
+//@   ensures case consumed:    rdAsked && !rdAllowed ==> node.Status == StatusDown && strategy.consecutiveSuccessCheckCount.int64 == old(strategy.consecutiveSuccessCheckCount.int64) - 1
+//@   ensures case rearmed:     !rdConn && old(node.Status) == StatusDown ==> strategy.consecutiveSuccessCheckCount.int64 == penalty(strategy.errorRecoveryCount.int64) && node.Status == StatusDown
+//@   ensures case restored:    !rdShould && !rdMasterDown && rdAlive && rdConn && old(node.Status) == StatusDown ==> rdAsked && (rdAllowed ==> node.Status == StatusUp)
+//@   ensures case stays:       old(node.Status) != StatusDown && !rdShould && (rdMasterDown || rdAlive) ==> node.Status == old(node.Status)
+
+// dispatch of one probe round by recovery policy
+//@ func (*Slice).TryRecover
+//@   requires s != nil && node != nil && s.Master != nil && (len(s.Master.Nodes) > 0 ==> s.Master.Nodes[0] != nil) && -(1<<40) <= lastChecked && lastChecked <= 1<<40
+//@   requires typeis(node.RecoveryStrategy, *HardCoolDownStrategy) ==> unbox(node.RecoveryStrategy, *HardCoolDownStrategy) != nil && -(1<<40) <= unbox(node.RecoveryStrategy, *HardCoolDownStrategy).coolingPeriod && unbox(node.RecoveryStrategy, *HardCoolDownStrategy).coolingPeriod <= 1<<40 && -(1<<40) <= unbox(node.RecoveryStrategy, *HardCoolDownStrategy).lastFuseTime.int64 && unbox(node.RecoveryStrategy, *HardCoolDownStrategy).lastFuseTime.int64 <= 1<<40
+//@   requires typeis(node.RecoveryStrategy, *GradualRecoveryStrategy) ==> unbox(node.RecoveryStrategy, *GradualRecoveryStrategy) != nil && 0 <= unbox(node.RecoveryStrategy, *GradualRecoveryStrategy).errorRecoveryCount.int64 && unbox(node.RecoveryStrategy, *GradualRecoveryStrategy).errorRecoveryCount.int64 <= 1<<20 && unbox(node.RecoveryStrategy, *GradualRecoveryStrategy).consecutiveSuccessCheckCount.int64 <= 1<<40
+//@   assert at call checkWithNoRecovery#0: node.FuseStrategy == nil || node.RecoveryStrategy == nil
+//@   assert at call checkWithHardRecovery#0: node.FuseStrategy != nil && typeis(node.RecoveryStrategy, *HardCoolDownStrategy) && arg4 == unbox(node.RecoveryStrategy, *HardCoolDownStrategy)
+//@   assert at call checkWithGradualRecovery#0: node.FuseStrategy != nil && typeis(node.RecoveryStrategy, *GradualRecoveryStrategy) && arg4 == unbox(node.RecoveryStrategy, *GradualRecoveryStrategy)
+//@   ensures ret0 != nil ==> node.Status == old(node.Status)
+
+// the circuit breaker: only connection errors reach the window; the replica goes down exactly when the window fires;
+// every fuse stamps the recovery policy with the current second (C27: the cool-down counts from the latest fuse)
+//@ ghost fuseFired bool
+//@ func (*Slice).TryFuse
+//@   requires s != nil && node != nil
+//@   requires typeis(node.RecoveryStrategy, *HardCoolDownStrategy) ==> unbox(node.RecoveryStrategy, *HardCoolDownStrategy) != nil
+//@   requires typeis(node.RecoveryStrategy, *GradualRecoveryStrategy) ==> unbox(node.RecoveryStrategy, *GradualRecoveryStrategy) != nil && 0 <= unbox(node.RecoveryStrategy, *GradualRecoveryStrategy).errorRecoveryCount.int64 && unbox(node.RecoveryStrategy, *GradualRecoveryStrategy).errorRecoveryCount.int64 <= 1<<20 && -(1<<40) <= unbox(node.RecoveryStrategy, *GradualRecoveryStrategy).lastRecoveryTime.int64 && unbox(node.RecoveryStrategy, *GradualRecoveryStrategy).lastRecoveryTime.int64 <= 1<<40
+//@   ghost-update at entry: fuseFired = false
+//@   ghost-update after call Trigger#0: fuseFired = ret0
+//@   assert at call Trigger#0: typeis(err, mysql.ConnTypeError) && arg1 == clock
+//@   ensures case otherErrors: !typeis(err, mysql.ConnTypeError) ==> !fuseFired && node.Status == old(node.Status)
+//@   ensures case noPolicy:    old(node.FuseStrategy) == nil || old(node.RecoveryStrategy) == nil ==> !fuseFired && node.Status == old(node.Status)
+//@   ensures case fired:       fuseFired ==> node.Status == StatusDown
+//@   ensures case quiet:       !fuseFired ==> node.Status == old(node.Status)
+//@   ensures case hardStamp:   fuseFired && typeis(node.RecoveryStrategy, *HardCoolDownStrategy) ==> unbox(node.RecoveryStrategy, *HardCoolDownStrategy).lastFuseTime.int64 == clock
+//@   ensures case gradualStamp: fuseFired && old(node.Status) != StatusDown && typeis(node.RecoveryStrategy, *GradualRecoveryStrategy) ==> unbox(node.RecoveryStrategy, *GradualRecoveryStrategy).lastFuseTime.int64 == clock
+//@   ensures case gradualPenalty: fuseFired && old(node.Status) != StatusDown && typeis(node.RecoveryStrategy, *GradualRecoveryStrategy) && clock - old(unbox(node.RecoveryStrategy, *GradualRecoveryStrategy).lastRecoveryTime.int64) <= PingPeriod * 2 ==> unbox(node.RecoveryStrategy, *GradualRecoveryStrategy).errorRecoveryCount.int64 == old(unbox(node.RecoveryStrategy, *GradualRecoveryStrategy).errorRecoveryCount.int64) + 1 && unbox(node.RecoveryStrategy, *GradualRecoveryStrategy).consecutiveSuccessCheckCount.int64 == penalty(unbox(node.RecoveryStrategy, *GradualRecoveryStrategy).errorRecoveryCount.int64)
+//@   ensures case gradualReset: fuseFired && old(node.Status) != StatusDown && typeis(node.RecoveryStrategy, *GradualRecoveryStrategy) && clock - old(unbox(node.RecoveryStrategy, *GradualRecoveryStrategy).lastRecoveryTime.int64) > PingPeriod * 2 ==> unbox(node.RecoveryStrategy, *GradualRecoveryStrategy).errorRecoveryCount.int64 == initErrorRecoveryCount
+
+//@ property C27: lemma penaltyMonotone, (*HardCoolDownStrategy).AllowRecovery, (*HardCoolDownStrategy).UpdateFuseTime,
+//@   (*GradualRecoveryStrategy).AllowRecovery, (*GradualRecoveryStrategy).UpdateCoolDownCount, (*GradualRecoveryStrategy).RefreshCoolDownCount,
+//@   (*GradualRecoveryStrategy).ResetBadRecovery, (*GradualRecoveryStrategy).IsBadRecovery, (*GradualRecoveryStrategy).UpdateFuseTime,
+//@   (*GradualRecoveryStrategy).UpdateLastRecoveryTime, min, (*Slice).checkWithHardRecovery, (*Slice).checkWithGradualRecovery,
+//@   (*Slice).TryRecover, (*Slice).TryFuse, (*NodeInfo).SetStatusUp, (*NodeInfo).SetStatusDown, (*NodeInfo).IsStatusDown
+//@ property C28: (*NodeInfo).SetStatusUp, (*NodeInfo).SetStatusDown, (*NodeInfo).IsStatusDown, (*NodeInfo).GetStatus, (*StatusCode).String,
+//@   (*NodeInfo).GetPooledConnectWithHealthCheck, (*NodeInfo).ShouldDownAfterNoAlive, (*Slice).GetMasterStatus, checkSlaveSyncStatus$1,
+//@   checkSlaveSyncStatus, (*Slice).checkWithNoRecovery, (*Slice).checkWithHardRecovery, (*Slice).checkWithGradualRecovery, (*Slice).TryRecover
